@@ -126,6 +126,12 @@ def gen(tier, seed):
         yield 'argon2b %s %d %s %s %s %s %s %s' % (rng.choice(list(TYPES)), T, rng.data(rng.choice([0, 8, 32])), rng.data(rng.choice([8, 16])), rng.data(rng.choice([0, 8])), rng.data(rng.choice([0, 12])),
                                                     rng.choice(['at', 'arr']), ' '.join(seq))
 
+    # RFC 9106 maps J1 into the reference area with TWO truncations (x = J1^2 >> 32; y = |W| * x >> 32).  For data-independent
+    # addressing J1 depends on the parameters only; these sets (found by scanning m' = 4096..12000, t = 1, p = 1 with the address
+    # generator alone) contain a position where a single widening multiplication (|W| * J1^2 >> 64) picks a different block:
+    # Argon2i m' = 6608 (pass 0, slice 3, index 308, |W| = 5263, J1 = 3375605307), Argon2id m' = 5868 (slice 0, index 1010, J1 = 689447105)
+    for ty, t, m, p_ in (('i', 1, 6608, 1), ('id', 1, 5868, 1)) + ((('i', 1, 7172, 1), ('i', 1, 8724, 1)) if thorough else ()):
+        yield case(rng, ty, 0x13, t, m, p_, 32, 'at', plen=8) + ' #double-truncation-sensitive'
     # the whole RFC 9106 parameter range is accepted by the builder (m up to 2^32-1 KiB, p up to 2^24-1, t up to 2^32-1), in either
     # setter order; nothing is allocated here, only the Params value is built
     MS = [8, 1 << 16, (1 << 20) + 3, (1 << 22) - 1, 1 << 22, (1 << 22) + 1, 1 << 24, (1 << 31) - 1, 1 << 31, (1 << 32) - 1]
